@@ -1,11 +1,54 @@
 package gen
 
 import (
+	"github.com/ipld/go-ipld-prime/datamodel"
+	"github.com/ipld/go-ipld-prime/fluent/qp"
+	"github.com/ipld/go-ipld-prime/node/basicnode"
 	"github.com/ipld/go-ipld-prime/traversal/selector"
 	"github.com/ipld/go-ipld-prime/traversal/selector/builder"
 
 	"verif/sim"
 )
+
+// StopLinks, when set, are links that occur in the graph about to be walked: a fifth of the
+// recursive clauses get a stop-at condition naming one of them (the builder has no call for it;
+// the clause's node is rebuilt with the "!" entry). Set by the scenario before drawing.
+var StopLinks []datamodel.Link
+
+// stopAtSpec is a recursive clause with a stop-at condition added.
+type stopAtSpec struct{ n datamodel.Node }
+
+func (s stopAtSpec) Node() datamodel.Node { return s.n }
+func (s stopAtSpec) Selector() (selector.Selector, error) {
+	return selector.ParseSelector(s.n)
+}
+
+// withStopAt rebuilds {"R": {...}} as {"R": {..., "!": {"/": link}}}.
+func withStopAt(spec builder.SelectorSpec, l datamodel.Link) builder.SelectorSpec {
+	body, err := spec.Node().LookupByString(selector.SelectorKey_ExploreRecursive)
+	if err != nil {
+		return spec
+	}
+	n, err := qp.BuildMap(basicnode.Prototype.Any, 1, func(ma datamodel.MapAssembler) {
+		qp.MapEntry(ma, selector.SelectorKey_ExploreRecursive, qp.Map(-1, func(ma datamodel.MapAssembler) {
+			for it := body.MapIterator(); !it.Done(); {
+				k, v, err := it.Next()
+				if err != nil {
+					return
+				}
+				ks, _ := k.AsString()
+				qp.MapEntry(ma, ks, qp.Node(v))
+			}
+			qp.MapEntry(ma, selector.SelectorKey_StopAt, qp.Map(1, func(ma datamodel.MapAssembler) {
+				qp.MapEntry(ma, string(selector.ConditionMode_Link), qp.Link(l))
+			}))
+		}))
+	})
+	if err != nil {
+		return spec
+	}
+	return stopAtSpec{n}
+}
 
 // Selector draws a selector spec through the repository's own selector builder.
 // noSubset replaces subset matchers by plain matchers.
@@ -91,6 +134,10 @@ func genSelector(t *sim.Tape, ssb builder.SelectorSpecBuilder, depth int, inRec 
 		default:
 			seq = genSelector(t, ssb, depth+1, true, noSubset)
 		}
-		return ssb.ExploreRecursive(lim, seq)
+		rec := ssb.ExploreRecursive(lim, seq)
+		if len(StopLinks) > 0 && t.Pct(20, "sel.stopat") {
+			return withStopAt(rec, StopLinks[t.Choice(len(StopLinks), "sel.stopat.link")])
+		}
+		return rec
 	}
 }
